@@ -60,6 +60,7 @@ type sim struct {
 	cache  map[string]string // C12: last observed content per tuple
 	preLen int
 	cur    map[string]string // known-finding key of the command shapes just executed, per addressed tuple
+	fresh  map[string]bool   // tainted by the command(s) being judged right now
 	taint  map[string]string // tuples damaged by a recorded deviation (no further judgement)
 
 	ncmd, ncompared, nbatch, nbatched, nenv int
@@ -389,6 +390,7 @@ func (s *sim) after(cmds [][]string, replies []interface{}, ctx string) {
 	c := s.c
 	tset := map[string]tuple{}
 	s.cur = map[string]string{}
+	s.fresh = map[string]bool{}
 	useModel := s.on08 || s.on12
 	broken := false
 	for i, args := range cmds {
@@ -404,7 +406,7 @@ func (s *sim) after(cmds [][]string, replies []interface{}, ctx string) {
 		if len(cmds) == 1 {
 			preLen = s.preLen
 		}
-		key := knownShape(args, want, s.mdl, preLen)
+		key := knownShape(args, want, s.mdl, preLen, s.cfg.engine)
 		tainted := false
 		for _, x := range touched(args) {
 			tset[x.id()] = x
@@ -422,6 +424,22 @@ func (s *sim) after(cmds [][]string, replies []interface{}, ctx string) {
 			} else if !s.compare(args, replies[i], want, key, ctx) {
 				// within a batch nothing after the first mismatch can be judged
 				broken = true
+			}
+		}
+		if key != "" && len(cmds) > 1 {
+			// a recorded deviation inside a batch: what follows it in the same
+			// batch cannot be judged (the data is judged at the end)
+			broken = true
+		}
+		if damaging(key) {
+			// executing this shape may leave latent damage: the key is judged
+			// one last time right now and never again in this run
+			for _, x := range touched(args) {
+				if s.taint[x.id()] == "" {
+					s.taint[x.id()] = key
+					s.fresh[x.id()] = true
+					s.c.Count("tainted_keys", 1)
+				}
 			}
 		}
 	}
@@ -445,6 +463,7 @@ func (s *sim) after(cmds [][]string, replies []interface{}, ctx string) {
 		s.check12(tset, where)
 	}
 	s.cur = nil
+	s.fresh = nil
 }
 
 // compare: reply of the implementation against the reference model. Returns
@@ -474,7 +493,7 @@ func (s *sim) compare(args []string, got, want interface{}, key string, ctx stri
 
 // dataCheck: content, size and existence of one (type, key) against the model.
 func (s *sim) dataCheck(x tuple, ctx string) {
-	if s.taint[x.id()] != "" {
+	if s.taint[x.id()] != "" && !s.fresh[x.id()] {
 		return
 	}
 	type probe struct {
@@ -500,11 +519,6 @@ func (s *sim) dataCheck(x tuple, ctx string) {
 			if !(s.c.Prop == "C12" && key != "") {
 				s.c.Violate(prop, rule, key, "%s: %s answers %s, the reference model says %s", ctx, q(p.cmd), nodeh.Fmt(got), model.Canon(p.want))
 			}
-		}
-		if key != "" {
-			// recorded deviation that damages the key: no further judgement on it
-			s.taint[x.id()] = key
-			s.c.Count("tainted_keys", 1)
 		}
 		s.resync([]tuple{x})
 		return
